@@ -2,6 +2,23 @@
 #[macro_export]
 macro_rules! impl_datatype_partial_eq {
     ($($type_name:tt)+) => {
+        impl $($type_name)+ {
+            /// The numeric variants as exact numbers (integers are not rounded to a double).
+            #[inline]
+            fn exact_num(&self) -> Option<$crate::types::core::ExactNum> {
+                use $crate::types::core::ExactNum;
+                match self {
+                    Self::Int(v) => Some(ExactNum::Int(v.0 as i128)),
+                    Self::BigInt(v) => Some(ExactNum::Int(v.0 as i128)),
+                    Self::UInt(v) => Some(ExactNum::Int(v.0 as i128)),
+                    Self::BigUInt(v) => Some(ExactNum::Int(v.0 as i128)),
+                    Self::Float(v) => Some(ExactNum::Float(v.0 as f64)),
+                    Self::Double(v) => Some(ExactNum::Float(v.0)),
+                    _ => None,
+                }
+            }
+        }
+
         impl PartialEq for $($type_name)+ {
             fn eq(&self, other: &Self) -> bool {
                 match (self, other) {
@@ -13,10 +30,10 @@ macro_rules! impl_datatype_partial_eq {
                     (Self::Bool(a), Self::Bool(b)) => a == b,
                     (Self::Blob(a), Self::Blob(b)) => a == b,
 
-                    // Numeric types are promoted to f64 to compare
+                    // Numeric types compare by their exact value, across column types
                     (a, b) if a.is_numeric() && b.is_numeric() => {
-                        match (a.to_f64(), b.to_f64()) {
-                            (Some(x), Some(y)) => x == y,
+                        match (a.exact_num(), b.exact_num()) {
+                            (Some(x), Some(y)) => matches!(x.partial_cmp(y), Some(Ordering::Equal)),
                             _ => false,
                         }
                     }
@@ -44,10 +61,10 @@ macro_rules! impl_datatype_partial_ord {
                     // Blob uses lexicographic ordering
                     (Self::Blob(a), Self::Blob(b)) => a.partial_cmp(b),
 
-                    // Numeric types are promoted to f64 and compared
+                    // Numeric types compare by their exact value, across column types
                     (a, b) if a.is_numeric() && b.is_numeric() => {
-                        match (a.to_f64(), b.to_f64()) {
-                            (Some(x), Some(y)) => x.partial_cmp(&y),
+                        match (a.exact_num(), b.exact_num()) {
+                            (Some(x), Some(y)) => x.partial_cmp(y),
                             _ => None,
                         }
                     }
